@@ -139,10 +139,12 @@ def run_history(ctx, cfg, nreq, tcp):
             (sim.stop if tcp else sim.close)()
 
 
-def gen_cfg(rng, big=False):
+def gen_cfg(rng, big=False, share=False):
     from vlib import reqgen
     sizes = [1, 1, 2, 3, 5, 8, 16, 40] + ([300, 700, 1200] if big else [])
-    cfg = reqgen.gen_config(rng, sizes=sizes)
+    cfg = reqgen.gen_config(rng, sizes=sizes, ntags=rng.choice([3, 4, 6]) if share else None, force_sharing=share)
+    if big:
+        cfg = cfg[:5] + [('BigOne', rng.choice(['INT', 'DINT', 'LINT', 'REAL']), rng.choice([300, 500, 700]), None)]
     return [(n, t, min(s, 5) if t in ('SSTRING', 'STRING') else s, a) for n, t, s, a in cfg]
 
 
@@ -155,7 +157,7 @@ def run(ctx):
         if quick and i > 14:
             break
         tcp = (i % 4 == 0)
-        cfg = gen_cfg(rng, big=(i % 3 == 1))
+        cfg = gen_cfg(rng, big=(i % 3 == 1), share=(i % 2 == 0))
         run_history(ctx, cfg, rng.choice([30, 60, 120]) if not quick else 50, tcp)
 
 
